@@ -982,9 +982,12 @@ import fixed as FX
 
 D8_TEXT = "D8 the fixed stacks used with cstring_buffer have capacity N + EmptyRulesCount + 1, which counts empty RULES of the grammar, not empty reductions on the stack: S->A A A A A A b; A->eps on \"b\" needs 8 slots, capacity is 4; the parse throws 'cvector capacity exceeded' (corpus/replays/D8.cpp)"
 
+D16_TEXT = "D16 the fixed stacks used with cstring_buffer do not count error-recovery tokens, which take a stack entry without consuming a byte: S -> error a error b on \"ab\" needs 5 slots, capacity is 4; the parse throws 'cvector capacity exceeded' (corpus/replays/D16.cpp)"
 def known_D8(rep):
     if FX.run_replay(rep, "D8", fixed=False): rep.known_finding(D8_TEXT)
     else: rep.tie_broken("known finding D8 no longer reproduces (corpus/replays/D8.cpp passes): known_findings.json is stale")
+    if FX.run_replay(rep, "D16", fixed=False): rep.known_finding(D16_TEXT)
+    else: rep.tie_broken("known finding D16 no longer reproduces (corpus/replays/D16.cpp passes): known_findings.json is stale")
 
 def check_C06(rep):
     common_stage(rep)
